@@ -1,6 +1,10 @@
 use super::indexes::{AssetIndex, PolicyIndex, UtxoIndex};
 use crate::{Coin, JsError};
+#[cfg(not(feature = "verif-hooks"))]
 use std::collections::{HashMap, HashSet};
+#[cfg(feature = "verif-hooks")]
+#[allow(unused_imports)]
+use crate::verif_hooks::{HashMap, HashSet, SimNew};
 
 #[derive(Clone)]
 pub(super) struct UtxosStat {
